@@ -28,6 +28,7 @@ func init() {
 func init() {
 	register("C12", "Writes are atomic and honour on_duplicate/on_missing", func(e *Engine, r *Reporter) {
 		ruleTxnDiscipline(e, r)
+		ruleCompositeKeyComplete(e, r)
 	})
 	register("C15", "The changelog faithfully records tuple history", func(e *Engine, r *Reporter) {
 		ruleAppendOnly(e, r, "changelog", "changelog-append-only", "the changelog table is only ever SELECTed or INSERTed, and INSERTs run on the write transaction", 6, true)
@@ -106,4 +107,72 @@ func init() {
 		ruleKeyCanonicalOrder(e, r)
 		ruleKeyHasStore(e, r)
 	})
+}
+
+func init() {
+	register("C14", "Paginated reads return every item exactly once", func(e *Engine, r *Reporter) {
+		rulePagingSQL(e, r)
+		ruleMemorySortLast(e, r)
+		ruleTokenHandling(e, r)
+	})
+	describe("C14", meta{
+		Decides:    "(1) in every paginated SQL statement of sqlite/mysql/postgres the continuation token is compared with the ORDER BY column in the matching direction, inclusive comparison is paired with LIMIT pageSize+1 and exclusive with LIMIT pageSize, and the three backends agree per method; (2) the memory backend sorts the complete filtered list before the offset token is applied; (3) every paging command queries the backend only after Encoder.Decode succeeded, with a position derived from the decoded token, and ReadChanges reaches the backend with a token only when the token's type equals the requested type.",
+		NotDecided: "exactly-once over concrete data, ULID monotonicity within a millisecond, concurrent writers during paging, the post-query truncation arithmetic.",
+	})
+	techniques["C14"] = "SQL statement reconstruction (token/order/limit agreement, sibling comparison) + cut reachability in the paging commands"
+	describe("C24", meta{
+		Decides:    "(1) every input of each of the 21 cache/planner/invalidation key builders reaches the encoding: scalar parameters are encoded, every field of a filter struct is read into the key, request/edge-typed inputs contribute at least the reviewed getter set; (2) keys.Tuple.WriteTo covers object, relation, user, condition name and context, keys.PbValue.WriteTo is total over structpb kinds and sorts struct fields; (3) list-valued inputs are sorted before being encoded; (4) every shared key encodes the store id (a value that is the store at every call site).",
+		NotDecided: "prefix-freeness of the TLV framing itself; 64-bit digest collisions (excluded by the statement).",
+	})
+	techniques["C24"] = "access-path (field coverage) analysis of key builders; must-precede of sort calls; call-site origin of the store component"
+}
+
+func init() {
+	register("C09", "Iterator caches never change answers", func(e *Engine, r *Reporter) {
+		ruleFlushOnlyWhenDone(e, r)
+		ruleBufferDroppedOnError(e, r)
+		ruleElisionAgreement(e, r)
+		ruleSharedFillContext(e, r)
+	})
+	describe("C09", meta{
+		Decides:    "(1) every call of a function that stores an iterator cache entry lies behind errors.Is(err, storage.ErrIteratorDone) on the underlying iterator, and the stored entry's LastModified is the query start time kept in the iterator; (2) in both caching iterators' Next a non-done, non-cancelled error drops the buffer; (3) every field written into a cached record is read back by the rebuild function and every elided field is restored from the iterator's own value (v1 TupleRecord and v2 MinimalCacheEntry); (4) the shared iterator fills its shared buffer under context.Background(); plus key completeness (C24) and higher-consistency bypass (C10) for the iterator caches.",
+		NotDecided: "interleavings of background drains, singleflight sharing, abandoned shared-iterator clones, run-time equality of cached and uncached answers.",
+	})
+	techniques["C09"] = "cut reachability (flush behind ErrIteratorDone), writer/reader field agreement on cached records"
+}
+
+func init() {
+	register("C08", "The Check query cache never changes answers", func(e *Engine, r *Reporter) {
+		ruleQueryCacheV1(e, r)
+		ruleCycleFlagMonotone(e, r)
+		ruleEdgeCacheVisited(e, r)
+	})
+	describe("C08", meta{
+		Decides:    "(1) CachedCheckResolver stores a response only behind err==nil and !CycleDetected and serves one only behind LastModified.After(LastCacheInvalidationTime); (2) the cycle marker is sticky while child results are folded in internal/graph (a non-constant assignment only on a terminal path), so the !CycleDetected guard sees every cycle cut; (3) the weighted-graph engine caches an edge result under EdgeCacheKey only if it is positive or was computed without the request-scoped visited filter, and ResolveEdge hands the raw visited map to a callee only where usesVisited holds; plus completeness of CheckCacheKey / EdgeCacheKey / InvariantCacheKey (C24) and the consistency bypass (C10).",
+		NotDecided: "dynamic equality of cached and fresh answers over request histories; ListObjects candidates evaluated with requests built outside NewResolveCheckRequest.",
+	})
+	techniques["C08"] = "cut reachability on SSA (cache.Set / cached return guards), store-in-loop monotonicity check"
+}
+
+func init() {
+	register("C07", "BatchCheck is equivalent to individual Checks", func(e *Engine, r *Reporter) {
+		ruleBatchCheck(e, r)
+	})
+	describe("C07", meta{
+		Decides:    "(1) every BatchCheckItem field forwarded to the per-item Check (tuple key with all three components, contextual tuples, context) and the request-level store and model are read by the de-duplication key, and the contextual tuples actually reach InvariantCacheKey's variadic parameter; (2) the per-item closures never return a non-nil error to the cancel-on-error pool and store an outcome on every path.",
+		NotDecided: "equality of each outcome with a standalone Check (inherits C01), hash collisions of the 64-bit invariant, scheduling of the pool.",
+	})
+	techniques["C07"] = "access-path comparison (forwarded fields vs key fields) + return-site analysis of pool closures"
+}
+
+
+func init() {
+	register("C25", "Condition evaluation follows the declared CEL semantics", func(e *Engine, r *Reporter) {
+		ruleConditionEval(e, r)
+	})
+	describe("C25", meta{
+		Decides:    "(1) EvaluateTupleCondition is fail-closed: every error return carries false, constant true only for a tuple without condition, the computed decision is ConditionMet behind Evaluate()==nil and an empty MissingParameters; (2) merge order: request context first, tuple context appended, Evaluate clones contextMaps[0] and copies contextMaps[1:] over it (later wins, so stored values take precedence); (3) every decode/convert/compile/evaluate error in CastContextToTypedParameters and Evaluate leads to a non-nil error return.",
+		NotDecided: "CEL's own semantics and the converters' value mapping per parameter type.",
+	})
+	techniques["C25"] = "return-site analysis + cut reachability on SSA; argument-order check of the context merge"
 }
